@@ -147,9 +147,16 @@ def _is_state_target(node):
 def sites(fn):
     out = []
     body_nodes = list(ast.walk(fn))
+    pos = {id(n): i for i, n in enumerate(body_nodes)}
+    neg_operands = {pos[id(n.operand)] for n in body_nodes if isinstance(n, ast.UnaryOp) and isinstance(n.op, ast.USub) and isinstance(n.operand, ast.Constant)}
+    in_signature = set()
+    for part in [fn.args] + list(fn.decorator_list) + ([fn.returns] if fn.returns is not None else []):
+        in_signature |= {pos[id(n)] for n in ast.walk(part)}
     for idx, node in enumerate(body_nodes):
         if node is fn:
             continue
+        if OPS_V2 and idx in in_signature:
+            continue  # default values / annotations / decorators are not mutated
         if isinstance(node, ast.Compare):
             for i, op in enumerate(node.ops):
                 if type(op) in SWAP_CMP:
@@ -161,6 +168,8 @@ def sites(fn):
         elif isinstance(node, ast.BoolOp) and type(node.op) in SWAP_BOOL:
             out.append(("bool", idx, 0))
         elif isinstance(node, ast.Constant) and isinstance(node.value, int) and not isinstance(node.value, bool) and abs(node.value) <= 3:
+            if OPS_V2 and idx in neg_operands:
+                continue  # the 1 of a literal -1: reshape(-1, ...) treats every negative number alike
             out.append(("const", idx, 0))
         elif isinstance(node, ast.Constant) and isinstance(node.value, bool):
             out.append(("boolconst", idx, 0))
@@ -275,6 +284,8 @@ def build_mutants(prop, max_per_prop, seed):
         if ast.dump(ast.parse(new_src)) == ast.dump(ast.parse(src)):
             continue
         stmt = lines[line - 1].strip()[:90] if line - 1 < len(lines) else ""
+        if OPS_V2:
+            desc = f"{desc} @{site[1]}"  # node index inside the function: distinguishes several sites of one line
         chosen.append({"pid": prop["id"], "file": path, "func": q, "line": line, "desc": desc, "stmt": stmt, "new_src": new_src})
     return chosen
 
